@@ -109,6 +109,10 @@ let pf toks =
          (match pf_grain fuel first last step grain with
           | GDone l -> "leaves=" ^ join "," (Stdlib.List.map (fun (_, (lo, hi)) -> sz lo ^ ":" ^ sz hi) l)
           | GOutOfFuel -> "outoffuel")
+     | "gprefix" ->  (* the grain-size code before its repair, for the record *)
+         (match pg_aux_prefix fuel first (zi 0) (count3 first last step) step grain with
+          | GDone l -> "leaves=" ^ join "," (Stdlib.List.map (fun (_, (lo, hi)) -> sz lo ^ ":" ^ sz hi) l)
+          | GOutOfFuel -> "outoffuel")
      | "rng" -> if not (pr_guard bits first last grain) then "overflow" else
          (match pr_aux fuel first last grain with
           | RDone l -> "leaves=" ^ join "," (Stdlib.List.map (fun (a, b) -> sz a ^ ":" ^ sz b) l)
